@@ -75,6 +75,7 @@ inline double model(int kind, const double *x, int d, int k){
         case 5: return model(0, x, d, k) * ((k == 0) ? 0.01 : 3.0 + k);                  // outputs of very different magnitude (per-output normalisation matters)
         case 7: { double t = 0; for(int j=0;j<d;j++) t += (double)(j + 1 + k) * x[j]; return std::exp(-t * t) + std::sin(3.0 * t + (double) k) + 0.5 * std::sin(17.0 * x[0] - 11.0 * x[d-1]); } // oscillatory: slow convergence of iterative solvers
         case 6: for(int j=0;j<d;j++) s += std::abs(x[j] - 0.3137 - 0.05 * j) * (1.0 + k) + std::sqrt(std::abs(x[j] + 0.4219)) + ((x[j] > -0.7071) ? 0.5 : 0.0); return s; // kinks, a root singularity and a jump: deep levels keep sizeable coefficients                  // outputs of very different magnitude (per-output normalisation matters)
+        case 8: return s + std::abs(x[0] + 0.5 * x[d > 1 ? 1 : 0] - 0.2) + 0.3 * x[d-1] * k; // kink along an oblique plane: classic refinement in >= 2-D leaves points without some of their parents (incomplete hierarchy)
         default: for(int j=0;j<d;j++) s += std::cos(2.0 * M_PI * x[j] * (j + 1)) + 0.5 * std::sin(2.0 * M_PI * x[j]) * (k + 1); return s; // periodic
     }
 }
@@ -167,6 +168,25 @@ struct RefLocal {
         else { if (l == 0){ r.push_back(0); return r; } if (l == 1){ r.push_back(-ONE); r.push_back(ONE); return r; } }
         long step = ONE >> (l - 1); for(long k = -ONE + step; k < ONE; k += 2 * step) r.push_back(k);
         return r;
+    }
+};
+
+// reference 1-D hierarchy of the wavelet rule (orders 1 and 3) on dyadic keys: nodes are the dyadic points of [-1,1]; "depth" of a node is 0 for 0 and +-1,
+// otherwise the number of binary digits; order 1: level = depth; order 3: the five points of depth <= 1 form level 0, level = depth - 1 afterwards.
+// Children: a node of depth >= 1 has the two neighbours of the next depth; -1 and +1 have the one inner neighbour; 0 has the two nodes of the first depth
+// that is not part of level 0 (+-1/2 for order 1, +-1/4 for order 3).
+struct RefWavelet {
+    int order; enum : long { ONE = 1048576 };
+    explicit RefWavelet(int ord) : order(ord){}
+    int depth(long k) const{ if (k < -ONE || k > ONE) return -1; if (k == 0 || k == ONE || k == -ONE) return 0; for(int l = 1; l <= 20; l++) if (k % (ONE >> l) == 0) return l; return -1; }
+    int level(long k) const{ int dd = depth(k); if (dd < 0) return -1; return (order == 1) ? dd : std::max(0, dd - 1); }
+    std::vector<long> children(long k) const{
+        std::vector<long> r; int dd = depth(k); if (dd < 0 || dd >= 19) return r;
+        long first = (order == 1) ? ONE / 2 : ONE / 4;
+        if (k == 0){ r.push_back(-first); r.push_back(first); return r; }
+        if (k == -ONE){ r.push_back(-ONE + first); return r; }
+        if (k == ONE){ r.push_back(ONE - first); return r; }
+        long h = ONE >> (dd + 1); r.push_back(k - h); r.push_back(k + h); return r;
     }
 };
 
